@@ -271,8 +271,16 @@ def nat_history(params, model):
     with warnings.catch_warnings():
         warnings.simplefilter("ignore")
         st = ctx.make_context(mk(state), storage=[fe])
+        bad = []
+
+        def eff(s):
+            a = s["cfg"].get("a", s["da"]); b = s["cfg"].get("b", s["db"])
+            return dict(src=(a, s["vs"]), m1=(a, s["vs"], b, s["vm"]), t1=(a, s["vs"], b, s["vm"]))
+
         for n, op in enumerate(ops):
             v = m(f"x{n}")
+            before = {d: st.key_for(RUN, d).lineage_hash for d in TYPES}
+            old = dict(state, cfg=dict(state["cfg"]))
             if op == "set_a":
                 st.set_config(dict(a=v)); state["cfg"]["a"] = v
             elif op == "set_b":
@@ -294,8 +302,12 @@ def nat_history(params, model):
             elif op == "get_t1_ctx2":
                 ctx.make_context(mk(state), storage=[fe], config=dict(state["cfg"])).get_array(
                     RUN, "t1", processor="single_thread", progress_bar=False)
+            after = {d: st.key_for(RUN, d).lineage_hash for d in TYPES}
+            for d in TYPES:
+                if (eff(old)[d] == eff(state)[d]) != (before[d] == after[d]):
+                    bad.append(f"step {op}: key({d}) changed={before[d] != after[d]} but tracked lineage changed="
+                               f"{eff(old)[d] != eff(state)[d]}")
         fresh = ctx.make_context(mk(state), storage=[MemFrontend()], config=dict(state["cfg"]))
-        bad = []
         for d in TYPES:
             if st.key_for(RUN, d).lineage_hash != fresh.key_for(RUN, d).lineage_hash:
                 bad.append(f"key({d})")
@@ -329,6 +341,30 @@ def sym_fuzzy(kind):
     st2.get_array(RUN, "t1", processor="single_thread", progress_bar=False)
     prove(len(fe.backends[0].store) == n_before, "fuzzy:data computed under fuzzy matching was written")
     return stored
+
+
+def nat_fuzzy(params, model):
+    inj = _setup_tok_only()
+    try:
+        label = core.concrete_run(lambda: sym_fuzzy(**params), model)
+    finally:
+        inj.restore()
+    return {"ok": label is None, "detail": label or "holds", "label": label}
+
+
+def _setup_tok_only():
+    """native replay of the fuzzy obligation: only the hash token is stubbed (no array shims)"""
+    import strax
+    import strax.utils
+
+    inj = arrays.Injector()
+
+    def dh(thing, length=10):
+        return Tok(strax.hashablize(thing))
+
+    inj.set(strax, "deterministic_hash", dh)
+    inj.inject(strax.utils, deterministic_hash=dh)
+    return inj
 
 
 def sym_order():
@@ -387,7 +423,7 @@ OBLIGATIONS = [
     Ob("history", sym_history, _grid, nat_history, setup=_setup, witnesses=1,
        doc="after any history: keys and get_array values equal a brand-new context's; key(d) changes iff tracked "
            "option / version of d or an ancestor changed"),
-    Ob("fuzzy", sym_fuzzy, lambda tier: [dict(kind="type"), dict(kind="option")], None, setup=_setup, witnesses=0),
+    Ob("fuzzy", sym_fuzzy, lambda tier: [dict(kind="type"), dict(kind="option")], nat_fuzzy, setup=_setup, witnesses=1),
     Ob("order", sym_order, lambda tier: [dict()], None, setup=_setup, witnesses=0),
     Ob("twin", sym_twin, lambda tier: [dict()], None, setup=_setup, expect_cex=True),
 ]
